@@ -2,8 +2,11 @@ import PymocaVerif.Model.Flatten
 /-!
 # Source libraries: nested class definitions, names as written, modifications as spelled
 
-Stage 1 of the reference semantics: `elab` resolves every type name lexically (first identifier
-in the class itself, then in the enclosing classes; the rest inside the class found) and desugars
+Stage 1 of the reference semantics: `elab` resolves every type name by Modelica's lookup (first
+identifier among the classes visible in the class itself — its own local classes, then the
+inherited ones — then likewise in the enclosing classes; the rest among the classes visible in the
+class found; the base class name of an extends clause is not searched among the classes its own
+class inherits) and desugars
 spelled modifications — `a.b(c = 1, d(e = 2)) = 3` — to `(path, expression)` pairs, so that the
 dotted spelling `a.x.start = 1` and the nested spelling `a(x(start = 1))` become the same thing.
 `render` prints the library as Modelica text (what the real parser is fed).
@@ -31,7 +34,7 @@ structure SExt where
 
 inductive SClass where
   | mk (name : Name) (kind : String) (alias : Option (List Name × List SMod)) (exts : List SExt)
-      (classes : List SClass) (comps : List SComp) (eqs : List (Expr × Expr))
+      (classes : List SClass) (comps : List SComp) (eqs : List Eqn) (ieqs : List Eqn)
   deriving Repr, Inhabited
 
 abbrev SLib := List SClass
@@ -76,11 +79,14 @@ mutual
     | m :: ms => m.toDotted pre ++ toDottedList pre ms
 end
 
-/-! ## class paths and lexical lookup -/
+/-! ## class paths and lookup -/
+
+def SClass.name : SClass → Name
+  | .mk name _ _ _ _ _ _ _ => name
 
 mutual
   def SClass.paths (pre : Path) : SClass → List Path
-    | .mk name _ _ _ classes _ _ => (pre ++ [name]) :: pathsList (pre ++ [name]) classes
+    | .mk name _ _ _ classes _ _ _ => (pre ++ [name]) :: pathsList (pre ++ [name]) classes
   def pathsList (pre : Path) : List SClass → List Path
     | [] => []
     | c :: cs => c.paths pre ++ pathsList pre cs
@@ -88,80 +94,168 @@ end
 
 def builtinNames : List String := ["Real", "Integer", "Boolean", "String"]
 
-/-- the innermost enclosing scope of `scope` (a prefix `scope.take j`, `j ≤ i`, longest first) that
-    declares a class named `h` -/
-def findScope (paths : List Path) (h : Name) (scope : Path) : Nat → Option Path
-  | 0 => if paths.contains (scope.take 0 ++ [h]) then some (scope.take 0) else none
-  | i + 1 =>
-    if paths.contains (scope.take (i + 1) ++ [h]) then some (scope.take (i + 1)) else findScope paths h scope i
+/-- What lookup needs to know of a class: its own local classes, and its base-class names, each
+    with the scope it is looked up from and whether the innermost level is restricted to the
+    class's own local classes (extends clauses: yes; the base of a short definition is looked up
+    from the enclosing class). -/
+structure ClassInfo where
+  own : List (Name × Path)
+  bases : List (Path × List Name × Bool)
+  deriving Repr, Inhabited
 
-/-- lexical lookup: the first identifier binds in the innermost scope that declares it -/
-def resolveRef (paths : List Path) (scope : Path) (ref : List Name) : Except Err Ty :=
+abbrev Index := List (Path × ClassInfo)
+
+def ownOf (pre : Path) (classes : List SClass) : List (Name × Path) :=
+  classes.map fun c => (c.name, pre ++ [c.name])
+
+mutual
+  def SClass.index (pre : Path) : SClass → Index
+    | .mk name _ alias exts classes _ _ _ =>
+      (pre ++ [name],
+        { own := ownOf (pre ++ [name]) classes,
+          bases := match alias with
+            | some (base, _) => [(pre, base, false)]
+            | none => exts.map fun e => (pre ++ [name], e.ref, true) }) :: indexList (pre ++ [name]) classes
+  def indexList (pre : Path) : List SClass → Index
+    | [] => []
+    | c :: cs => c.index pre ++ indexList pre cs
+end
+
+/-- the root (path `[]`) "declares" the top-level classes -/
+def indexOf (src : List SClass) : Index := ([], { own := ownOf [] src, bases := [] }) :: indexList [] src
+
+def Index.own (ix : Index) (p : Path) : List (Name × Path) :=
+  match List.lookup p ix with
+  | none => []
+  | some i => i.own
+
+/-- the candidates at level `j` of `scope` (the class `scope.take j`) -/
+def levelCands (vis : Path → Except Err (List (Name × Path))) (own : Path → List (Name × Path))
+    (scope : Path) (ownOnlyInner : Bool) (j : Nat) : Except Err (List (Name × Path)) :=
+  if ownOnlyInner && j == scope.length then .ok (own (scope.take j)) else vis (scope.take j)
+
+/-- the innermost level `j ≤ i` whose candidates contain `h` -/
+def findLevel (vis : Path → Except Err (List (Name × Path))) (own : Path → List (Name × Path))
+    (scope : Path) (ownOnlyInner : Bool) (h : Name) : Nat → Except Err (Option Path)
+  | 0 =>
+    match levelCands vis own scope ownOnlyInner 0 with
+    | .error e => .error e
+    | .ok cs => .ok (cs.lookup h)
+  | i + 1 =>
+    match levelCands vis own scope ownOnlyInner (i + 1) with
+    | .error e => .error e
+    | .ok cs =>
+      match cs.lookup h with
+      | some b => .ok (some b)
+      | none => findLevel vis own scope ownOnlyInner h i
+
+/-- the remaining identifiers, each among the classes visible in the class found so far -/
+def descend (vis : Path → Except Err (List (Name × Path))) (base : Path) : List Name → Except Err (Option Path)
+  | [] => .ok (some base)
+  | n :: t =>
+    match vis base with
+    | .error e => .error e
+    | .ok cs =>
+      match cs.lookup n with
+      | none => .ok none
+      | some b => descend vis b t
+
+def resolveWith (vis : Path → Except Err (List (Name × Path))) (own : Path → List (Name × Path))
+    (scope : Path) (ref : List Name) (ownOnlyInner : Bool) : Except Err Ty :=
   match ref with
   | [] => .error (.resolve "empty name")
   | h :: t =>
     if builtinNames.contains h then
       if t.isEmpty then .ok (.builtin h) else .error (.resolve ("lookup inside builtin " ++ h))
     else
-      match findScope paths h scope scope.length with
-      | none => .error (.resolve ("class not found: " ++ ".".intercalate ref))
-      | some s =>
-        if paths.contains (s ++ ref) then .ok (.cls (s ++ ref))
-        else .error (.resolve ("class not found: " ++ ".".intercalate ref))
+      match findLevel vis own scope ownOnlyInner h scope.length with
+      | .error e => .error e
+      | .ok none => .error (.resolve ("class not found: " ++ ".".intercalate ref))
+      | .ok (some b) =>
+        match descend vis b t with
+        | .error e => .error e
+        | .ok none => .error (.resolve ("class not found: " ++ ".".intercalate ref))
+        | .ok (some p) => .ok (.cls p)
+
+/-- the classes inherited through one base-class name, given how to resolve it and the visible
+    classes of a class -/
+def baseStep (res : Path → List Name → Bool → Except Err Ty) (vis : Path → Except Err (List (Name × Path)))
+    (b : Path × List Name × Bool) : Except Err (List (Name × Path)) :=
+  match res b.1 b.2.1 b.2.2 with
+  | .error e => .error e
+  | .ok (.builtin _) => .ok []
+  | .ok (.cls q) => vis q
+
+mutual
+  /-- classes visible in class `p`: its own local classes first, then those of its base classes -/
+  def visF : Nat → Index → Path → Except Err (List (Name × Path))
+    | 0, _, _ => .error .fuel
+    | f + 1, ix, p =>
+      match List.lookup p ix with
+      | none => .error (.noClass p)
+      | some info =>
+        match mapE (baseStep (resolveF f ix) (visF f ix)) info.bases with
+        | .error e => .error e
+        | .ok inh => .ok (info.own ++ inh.flatten)
+  def resolveF : Nat → Index → Path → List Name → Bool → Except Err Ty
+    | 0, _, _, _, _ => .error .fuel
+    | f + 1, ix, scope, ref, ownOnlyInner => resolveWith (visF f ix) ix.own scope ref ownOnlyInner
+end
 
 /-! ## elaboration -/
 
-def elabComp (paths : List Path) (scope : Path) (k : SComp) : Except Err Comp :=
-  match resolveRef paths scope k.type with
+def elabComp (res : Path → List Name → Bool → Except Err Ty) (scope : Path) (k : SComp) : Except Err Comp :=
+  match res scope k.type false with
   | .error e => .error e
   | .ok t => .ok { name := k.name, ty := t, prefixes := k.prefixes, dims := k.dims,
                    mods := desugarList [] k.mods ++ optMod [] k.value }
 
-def elabExt (paths : List Path) (scope : Path) (e : SExt) : Except Err (Ty × List Mod) :=
-  match resolveRef paths scope e.ref with
+def elabExt (res : Path → List Name → Bool → Except Err Ty) (scope : Path) (e : SExt) : Except Err (Ty × List Mod) :=
+  match res scope e.ref true with
   | .error e => .error e
   | .ok t => .ok (t, desugarList [] e.mods)
 
 mutual
-  def SClass.elab (paths : List Path) (pre : Path) : SClass → Except Err Lib
-    | .mk name _ alias exts classes comps eqs =>
-      match elabList paths (pre ++ [name]) classes with
+  def SClass.elab (res : Path → List Name → Bool → Except Err Ty) (pre : Path) : SClass → Except Err Lib
+    | .mk name _ alias exts classes comps eqs ieqs =>
+      match elabList res (pre ++ [name]) classes with
       | .error e => .error e
       | .ok sub =>
         match alias with
         | some (base, mods) =>
           -- the base of a short definition is looked up from the enclosing class
-          match resolveRef paths pre base with
+          match res pre base false with
           | .error e => .error e
           | .ok t => .ok ((pre ++ [name], { isShort := true, exts := [(t, desugarList [] mods)],
-                                            comps := [], eqs := [] }) :: sub)
+                                            comps := [], eqs := [], ieqs := [] }) :: sub)
         | none =>
-          match mapE (elabExt paths (pre ++ [name])) exts with
+          match mapE (elabExt res (pre ++ [name])) exts with
           | .error e => .error e
           | .ok es =>
-            match mapE (elabComp paths (pre ++ [name])) comps with
+            match mapE (elabComp res (pre ++ [name])) comps with
             | .error e => .error e
-            | .ok ks => .ok ((pre ++ [name], { isShort := false, exts := es, comps := ks, eqs := eqs }) :: sub)
-  def elabList (paths : List Path) (pre : Path) : List SClass → Except Err Lib
+            | .ok ks => .ok ((pre ++ [name], { isShort := false, exts := es, comps := ks, eqs := eqs,
+                                               ieqs := ieqs }) :: sub)
+  def elabList (res : Path → List Name → Bool → Except Err Ty) (pre : Path) : List SClass → Except Err Lib
     | [] => .ok []
     | c :: cs =>
-      match c.elab paths pre with
+      match c.elab res pre with
       | .error e => .error e
       | .ok l =>
-        match elabList paths pre cs with
+        match elabList res pre cs with
         | .error e => .error e
         | .ok ls => .ok (l ++ ls)
 end
+
+/-- enough for any acyclic library: every recursive call moves to another class or consumes a
+    short definition; the class count bounds the depth, plus slack for the call structure -/
+def defaultFuel (src : SLib) : Nat := 2 * (pathsList [] src).length + 8
 
 def elabLib (src : SLib) : Except Err Lib :=
   let paths := pathsList [] src
   match dupName (paths.map fun p => ".".intercalate p) with
   | some n => .error (.resolve ("duplicate class " ++ n))
-  | none => elabList paths [] src
-
-/-- enough for any acyclic library: every recursive call moves to another class or consumes a
-    short definition; the class count bounds the depth, plus slack for the call structure -/
-def defaultFuel (src : SLib) : Nat := 2 * (pathsList [] src).length + 8
+  | none => elabList (resolveF (2 * defaultFuel src) (indexOf src)) [] src
 
 def flattenSrc (src : SLib) (target : Path) : Except Err FlatModel :=
   match elabLib src with
@@ -175,9 +269,9 @@ def SExt.respell (f : List SMod → List SMod) (e : SExt) : SExt := { e with mod
 
 mutual
   def SClass.respell (f : List SMod → List SMod) : SClass → SClass
-    | .mk name kind alias exts classes comps eqs =>
+    | .mk name kind alias exts classes comps eqs ieqs =>
       .mk name kind (alias.map fun a => (a.1, f a.2)) (exts.map (SExt.respell f))
-        (respellList f classes) (comps.map (SComp.respell f)) eqs
+        (respellList f classes) (comps.map (SComp.respell f)) eqs ieqs
   def respellList (f : List SMod → List SMod) : List SClass → List SClass
     | [] => []
     | c :: cs => c.respell f :: respellList f cs
@@ -185,9 +279,24 @@ end
 
 /-! ## Modelica text -/
 
-def showParts (parts : List (Name × List Nat)) : String :=
+def Sub0.show : Sub0 → String
+  | .lit n => toString n
+  | .name x => x
+  | .add a b => "(" ++ a.show ++ " + " ++ b.show ++ ")"
+
+def showParts0 (parts : List (Name × List Sub0)) : String :=
   ".".intercalate (parts.map fun p =>
-    if p.2.isEmpty then p.1 else p.1 ++ "[" ++ ",".intercalate (p.2.map toString) ++ "]")
+    if p.2.isEmpty then p.1 else p.1 ++ "[" ++ ",".intercalate (p.2.map Sub0.show) ++ "]")
+
+def Sub1.show : Sub1 → String
+  | .lit n => toString n
+  | .name x => x
+  | .ref parts => showParts0 parts
+  | .add a b => "(" ++ a.show ++ " + " ++ b.show ++ ")"
+
+def showParts (parts : List (Name × List Sub1)) : String :=
+  ".".intercalate (parts.map fun p =>
+    if p.2.isEmpty then p.1 else p.1 ++ "[" ++ ",".intercalate (p.2.map Sub1.show) ++ "]")
 
 def Expr.show : Expr → String
   | .num n => toString n
@@ -196,6 +305,13 @@ def Expr.show : Expr → String
   | .ref parts => showParts parts
   | .un op a => if op == "-" then "(-" ++ a.show ++ ")" else op ++ "(" ++ a.show ++ ")"
   | .bin op a b => "(" ++ a.show ++ " " ++ op ++ " " ++ b.show ++ ")"
+
+def Eqn.show (ind : String) : Eqn → String
+  | .eq l r => ind ++ "  " ++ l.show ++ " = " ++ r.show ++ ";\n"
+  | .forEq i lo hi body =>
+    ind ++ "  for " ++ i ++ " in " ++ toString lo ++ ":" ++ toString hi ++ " loop\n" ++
+      String.join (body.map fun e => ind ++ "    " ++ e.1.show ++ " = " ++ e.2.show ++ ";\n") ++
+      ind ++ "  end for;\n"
 
 def showValue : Option Expr → String
   | none => ""
@@ -220,15 +336,15 @@ def SComp.show (ind : String) (k : SComp) : String :=
 
 mutual
   def SClass.show (ind : String) : SClass → String
-    | .mk name kind alias exts classes comps eqs =>
+    | .mk name kind alias exts classes comps eqs ieqs =>
       match alias with
       | some (base, mods) => ind ++ kind ++ " " ++ name ++ " = " ++ ".".intercalate base ++ showMods mods ++ ";\n"
       | none =>
         ind ++ kind ++ " " ++ name ++ "\n" ++ showClassList (ind ++ "  ") classes ++
           String.join (exts.map fun e => ind ++ "  extends " ++ ".".intercalate e.ref ++ showMods e.mods ++ ";\n") ++
           String.join (comps.map (SComp.show ind)) ++
-          (if eqs.isEmpty then "" else ind ++ "equation\n" ++
-            String.join (eqs.map fun e => ind ++ "  " ++ e.1.show ++ " = " ++ e.2.show ++ ";\n")) ++
+          (if ieqs.isEmpty then "" else ind ++ "initial equation\n" ++ String.join (ieqs.map (Eqn.show ind))) ++
+          (if eqs.isEmpty then "" else ind ++ "equation\n" ++ String.join (eqs.map (Eqn.show ind))) ++
           ind ++ "end " ++ name ++ ";\n"
   def showClassList (ind : String) : List SClass → String
     | [] => ""
